@@ -4,35 +4,67 @@
    a. [val_oracle], [val_oracleT]   reading the two oracle shapes of [val].
       [val_var_free]                [var_free fuel a m = true] (any fuel): [val a m r] does not
                                     depend on [ev r].
-   b. [dkids], [dreach]             deep reachability: through walk()'s children AND through the
-                                    coordinate trees / underlying oracle of a transformed oracle.
-      [coords_closed_evaluable], [coords_closed_dkid], [coords_closed_dreach]
-                                    [coords_closed fc a root = true] makes every deeply reachable
-                                    node evaluable and coordinate-closed.
-      [eval_oracle_correct]         the mutual statement, by induction on the fuel.
-      [evaluator_correct]           the tower of per-coordinate evaluators inside
+   b. The model ([evaluator]) starts every evaluator with Tree::optimized (flatten + optimise),
+      as Deck::Deck does, so SOURCE trees (lazy [NRemap] / [NApply] nodes, also inside the
+      coordinate trees of a transformed oracle) are covered.
+      [xyz_only a m]                [val a m] depends on the point only (semantic form of "the
+                                    coordinate tree mentions no free variable");
+                                    [var_free_xyz_only]: implied by [var_free].
+      [opt_ok a root]               ASSUMED about Tree::optimized on ONE tree (a Prop, not an
+                                    axiom): the result [(a1, r1)] is a live node of a
+                                    well-formed [base_ok] arena, [val a1 r1 = val a root], and
+                                    every node walk() reaches from r1 is [opure_at] (plain node
+                                    or oracle leaf).
+      [tower_ok n a root], [obj_ok n a id]
+                                    the tower, n levels deep: [opt_ok] for the tree handed to an
+                                    evaluator, a good oracle object for every oracle node of its
+                                    deck; a transformed oracle is good when its three coordinate
+                                    trees have good evaluators and are [xyz_only] (they are run
+                                    with the EMPTY variable map) and its 4th component is a good
+                                    oracle node.  [tower_mono], [tower_ok_le], [obj_ok_le].
+      [tower_correct]               the mutual statement, by induction on n.
+      [evaluator_correct]           [tower_ok n a root -> n <= fuel ->
+                                     evaluator fuel a root vars x y z = val a root {x,y,z,vars}]:
+                                    the tower of per-coordinate evaluators inside
                                     TransformedOracle computes the composition with the
-                                    coordinate maps: [evaluator ... = val a root {x,y,z,vars}].
+                                    coordinate maps.  Any number type; no law of the operations
+                                    is used beyond what [opt_ok] packages.
       [oracle_obj_correct]          same for the oracle object of an oracle node, at ANY
                                     variable assignment.
-      [deep_arena], [deep_evaluator_11], [deep_evaluator_12], [deep_val],
-      [fuel_root_lt_insufficient]   five nested transformed oracles at root 10: fuel 11 gives a
-                                    wrong value, fuel 12 the right one.
-      [evaluator_correct_le], [oracle_obj_correct_le]
-                                    the same with the side conditions on all nodes <= root and
-                                    [coords_closed (S root)] (as [deck_correct]; with [base_ok]
-                                    only usable for root < 3 since id 3 is [NInvalid] -- use the
-                                    [dreach] forms above).
-      Fuel: [2 * root + 2 <= fuel] for an evaluator, [2 * id + 1 <= fuel] for an oracle object
-      (one unit per evaluator level and one per oracle object; [root < fuel] is NOT enough for
-      nested transformed oracles).
-      Extra hypotheses: [canon_at] on reachable nodes (singleton X/Y/Z; already needed for
-      pure decks, see DeckSem.v) and [underlying_ok]: the 4th component of an [NOracleT] is an
-      oracle node (Tree::flatten only builds such nodes; [oracle_obj] answers 0 otherwise).
-   c. [bad_arena], [bad_evaluator], [bad_val], [bad_arena_side], [bad_not_closed],
-      [oracle_vars_refuted]         over [RD]: remap x -> x + v of an oracle, v := 3: the
-                                    evaluator gives 0, the meaning is 3.  All hypotheses of
-                                    [evaluator_correct] except [coords_closed] hold.
+      Fuel: the depth n of [tower_ok] (one unit per evaluator and one per oracle object); every
+      larger fuel works.  The former numeric bound (2*root+2) and its counterexample
+      [fuel_root_lt_insufficient] are gone with the fuel discipline.
+      WHAT [opt_ok] ASSUMES vs WHAT IS PROVED (end of file, over [R_ops uf bf], the instance of
+      Tree/OptimizeSem.v):
+      [opt_ok_src], [tower_ok_src], [evaluator_oracle_free]
+                                    oracle-free source trees ([src_ok] + [noT]): [opt_ok] is a
+                                    theorem and the evaluator (fuel >= 1) is the denotation
+                                    (this is C01's eval_denotes).
+      [optimized_sem_noremap]       roots without lazy nodes: value preserved with any oracles
+                                    below (flatten is the identity; [opt_tree_sem] has no shape
+                                    restriction).
+      [opt_ok_of_pure]              with oracles, for a root satisfying [noT] or without lazy
+                                    nodes, all of [opt_ok] follows from OptimizeSem.v EXCEPT the
+                                    last conjunct (the optimised root reaches only [opure_at]
+                                    nodes): OptimizePure.v proves it for oracle-free sources
+                                    only ([src_ok] excludes oracles).  For coordinate trees that
+                                    still hold lazy remaps above an arena containing [NOracleT]
+                                    nodes, value preservation is assumed too ([flatten_sem]
+                                    needs [noT] on ALL ids below the root).
+      [tower_ok_pure], [opt_ok_intro], [tower_ok_S_eq], [reach_closed]
+                                    tools to establish [tower_ok] on concrete arenas.
+   c. [ex_arena w], [ex_opt w]      oracle.remap(min(x, node w), y, z) built lazily, and what
+                                    Tree::optimized makes of it.
+      [ex_tower]                    [tower_ok 3 (ex_arena w) 8 <-> xyz_only (ex_opt w) 10].
+      [good_arena], [good_tower], [good_evaluator]
+                                    w = y: [tower_ok] holds (non-vacuity, every number type)
+                                    and the evaluator returns osem 0 (min x y) y z.
+      [bad_arena], [bad_optimized], [bad_evaluator], [bad_val], [bad_tower],
+      [oracle_vars_refuted]         w = a free variable v, over [RD], v := 3, x := 5: the
+                                    evaluator gives min(5,0) = 0, the meaning is min(5,3) = 3;
+                                    [tower_ok] fails exactly at [xyz_only] of the coordinate.
+                                    (min instead of x + v: affine coordinates make the optimiser
+                                    compare real coefficients, which does not compute.)
    d. [subst_handle], [denote_wrap], [oracle_wrap], [oracle_wrap_denote]
                                     wrapping an expression in an oracle that agrees with it is
                                     invisible to every context (remap chains, operations).
@@ -49,6 +81,7 @@
       [oracle_ctx_preserves_push]   ... instantiated with Tape::push ([push_preserves]). *)
 From Coq Require Import List Arith Bool Lia.
 From LF Require Import Base.Opcode Base.Num Base.Arena Base.Sem Tree.Build Tree.BuildSem
+                       Tree.Flatten Tree.Optimize
                        Eval.Deck Eval.DeckSem Eval.DeckSemReach Eval.OracleEval
                        Eval.DeckOracleSem Stdlib.SExpr Eval.Push Eval.PushSem.
 Import ListNotations.
@@ -109,92 +142,6 @@ End ValOracle.
 
 (* ================================================================== *)
 (* b. the recursive evaluators compute the denotation                   *)
-Section DeepReach.
-  Context {num : Type}.
-  Notation node := (node num).
-  Notation arena := (arena num).
-
-  (* children in the deep sense: a transformed oracle owns evaluators for its three
-     coordinate trees and the underlying oracle *)
-  Definition dkids (n : node) : list nat :=
-    match n with
-    | NUnary _ x => [x]
-    | NBinary _ x y => [x; y]
-    | NOracleT x y z u => [x; y; z; u]
-    | _ => []
-    end.
-
-  Inductive dreach (a : arena) (root : nat) : nat -> Prop :=
-  | dreach_root : dreach a root root
-  | dreach_kid p c : dreach a root p -> In c (dkids (getn a p)) -> dreach a root c.
-
-  Lemma kids_dkids (n : node) c : In c (kids n) -> In c (dkids n).
-  Proof. destruct n; simpl; tauto. Qed.
-
-  Lemma dkids_lt (a : arena) p c : arena_wf a -> p < length a -> In c (dkids (getn a p)) -> c < p.
-  Proof.
-    intros Hwf Hp Hc. pose proof (arena_wf_nth a p Hwf Hp) as Hn.
-    destruct (getn a p) as [c0|op|op x|op x y|k|x' y' z' t'|x y z t|v e t|];
-      simpl in Hc, Hn; try contradiction.
-    - destruct Hc as [<-|[]]. tauto.
-    - destruct Hc as [<-|[<-|[]]]; tauto.
-    - destruct Hc as [<-|[<-|[<-|[<-|[]]]]]; tauto.
-  Qed.
-
-  Lemma dreach_le (a : arena) root m :
-    arena_wf a -> root < length a -> dreach a root m -> m <= root.
-  Proof.
-    intros Hwf Hr. induction 1 as [|p c Hp IH Hc]; [lia|].
-    pose proof (dkids_lt a p c Hwf ltac:(lia) Hc). lia.
-  Qed.
-
-  Lemma reach_dreach (a : arena) root m : reach a root m -> dreach a root m.
-  Proof.
-    induction 1 as [|p c Hp IH Hc]; [constructor|].
-    apply (dreach_kid a root p c IH). apply kids_dkids; exact Hc.
-  Qed.
-
-  Lemma dreach_trans (a : arena) root p m : dreach a root p -> dreach a p m -> dreach a root m.
-  Proof.
-    intros Hp. induction 1 as [|q c Hq IH Hc]; [exact Hp|].
-    apply (dreach_kid a root q c IH Hc).
-  Qed.
-
-  (* the fourth component of a transformed oracle is an oracle *)
-  Definition underlying_at (a : arena) (m : nat) : Prop :=
-    match getn a m with
-    | NOracleT _ _ _ u => is_oracle_node (getn a u) = true
-    | _ => True
-    end.
-
-  Lemma coords_closed_evaluable (a : arena) fc m : coords_closed fc a m = true -> evaluable_at a m.
-  Proof.
-    destruct fc as [|f]; [discriminate|]. cbn [coords_closed]. unfold evaluable_at.
-    destruct (getn a m); try discriminate; auto.
-  Qed.
-
-  Lemma coords_closed_dkid (a : arena) fc p c :
-    coords_closed fc a p = true -> In c (dkids (getn a p)) -> coords_closed (pred fc) a c = true.
-  Proof.
-    destruct fc as [|f]; [discriminate|]. cbn [coords_closed pred].
-    destruct (getn a p) as [c0|op|op x|op x y|k|x' y' z' t'|x y z t|v e t|];
-      cbn [dkids]; intros H Hc; try (destruct Hc; fail).
-    - destruct Hc as [<-|[]]. exact H.
-    - apply andb_true_iff in H. destruct H as [H1 H2].
-      destruct Hc as [<-|[<-|[]]]; assumption.
-    - repeat (apply andb_true_iff in H; let K := fresh "K" in destruct H as [H K]).
-      destruct Hc as [<-|[<-|[<-|[<-|[]]]]]; assumption.
-  Qed.
-
-  Lemma coords_closed_dreach (a : arena) root fc :
-    coords_closed fc a root = true ->
-    forall m, dreach a root m -> exists fc', coords_closed fc' a m = true.
-  Proof.
-    intros H m. induction 1 as [|p c Hp [fp IH] Hc]; [exists fc; exact H|].
-    exists (pred fp). apply (coords_closed_dkid a fp p c IH Hc).
-  Qed.
-End DeepReach.
-
 Section OracleCorrect.
   Context {num : Type} (O : ops num).
   Variable osem : nat -> num -> num -> num -> num.
@@ -207,13 +154,14 @@ Section OracleCorrect.
 
   Lemma evaluator_S f (a : arena) root vars x y z :
     evaluator (S f) a root vars x y z =
-    tape_value O
-      (fun k px py pz =>
-         match nth_error (d_oracles (mk_deck a root)) k with
-         | Some (_, id) => oracle_obj f a id px py pz
-         | None => o_zero O
-         end)
-      (mk_deck a root) (d_tape (mk_deck a root)) (d_root (mk_deck a root)) vars x y z.
+    (let '(a1, r1) := optimized O a root in
+     tape_value O
+       (fun k px py pz =>
+          match nth_error (d_oracles (mk_deck a1 r1)) k with
+          | Some (_, id) => oracle_obj f a1 id px py pz
+          | None => o_zero O
+          end)
+       (mk_deck a1 r1) (d_tape (mk_deck a1 r1)) (d_root (mk_deck a1 r1)) vars x y z).
   Proof. reflexivity. Qed.
 
   Lemma oracle_obj_S f (a : arena) id x y z :
@@ -227,213 +175,334 @@ Section OracleCorrect.
     end.
   Proof. reflexivity. Qed.
 
-  Section Good.
-    Variable a : arena.
-    Hypothesis Hwf : arena_wf a.
-    Hypothesis Hb : base_ok O a.
-    (* a set of nodes closed under deep children on which the side conditions hold *)
-    Variable G : nat -> Prop.
-    Hypothesis HGlt : forall m, G m -> m < length a.
-    Hypothesis HGkid : forall p c, G p -> In c (dkids (getn a p)) -> G c.
-    Hypothesis HGcan : forall m, G m -> canon_at a m.
-    Hypothesis HGund : forall m, G m -> underlying_at a m.
+  (* the value of [m] depends on the point only, not on the variable assignment: the
+     semantic form of "the coordinate tree mentions no free variable" *)
+  Definition xyz_only (a : arena) (m : nat) : Prop :=
+    forall r r' : env, ex r = ex r' -> ey r = ey r' -> ez r = ez r' -> val a m r = val a m r'.
 
-    Lemma reach_good root fc : G root -> coords_closed fc a root = true ->
-      forall m, reach a root m -> G m /\ exists fc', coords_closed fc' a m = true.
-    Proof.
-      intros Hg Hc m. induction 1 as [|p c Hp [Gp [fp IH]] Hk].
-      - split; [exact Hg | exists fc; exact Hc].
-      - apply kids_dkids in Hk. split; [apply (HGkid p c Gp Hk)|].
-        exists (pred fp). apply (coords_closed_dkid a fp p c IH Hk).
-    Qed.
+  Lemma var_free_xyz_only (a : arena) fuel m :
+    arena_wf a -> m < length a -> var_free fuel a m = true -> xyz_only a m.
+  Proof. intros Hwf Hm Hv r r'. apply (val_var_free O osem a Hwf fuel m Hm Hv). Qed.
 
-    Lemma eval_oracle_correct : forall F,
-      (forall root fc vars x y z, G root -> 2 * root + 2 <= F -> coords_closed fc a root = true ->
-         evaluator F a root vars x y z = val a root {| ex := x; ey := y; ez := z; ev := vars |}) /\
-      (forall id fc x y z any, G id -> 2 * id + 1 <= F -> is_oracle_node (getn a id) = true ->
-         coords_closed fc a id = true ->
-         oracle_obj F a id x y z = val a id {| ex := x; ey := y; ez := z; ev := any |}).
-    Proof.
-      induction F as [|f [IHE IHO]]; (split; [intros root fc vars x y z Hg HF Hc
-                                             | intros id fc x y z any Hg HF Hor Hc]); try lia.
-      - (* an evaluator: a deck whose ORACLE clauses call the oracle objects *)
-        rewrite evaluator_S.
-        pose proof (HGlt root Hg) as Hroot.
-        apply (deck_correct_oracle_reach O osem _ a root vars x y z Hwf Hb Hroot).
-        + intros m Hm. destruct (reach_good root fc Hg Hc m Hm) as [Gm [fm Hcm]].
-          apply opure_of_evaluable; [exact (coords_closed_evaluable a fm m Hcm) | exact (HGcan m Gm)].
-        + intros k slot id Hk. cbv beta. rewrite Hk.
-          destruct (deck_oracles_spec a Hwf root Hroot slot id (nth_error_In _ _ Hk))
-            as (Hr & Hle & Hlt & Hor).
-          destruct (reach_good root fc Hg Hc id Hr) as [Gid [fi Hci]].
-          apply (IHO id fi x y z vars Gid ltac:(lia) Hor Hci).
-      - (* an oracle object *)
-        rewrite oracle_obj_S. pose proof (HGlt id Hg) as Hid.
-        pose proof (HGund id Hg) as Hund. unfold underlying_at in Hund.
-        destruct (getn a id) as [c|op|op x0|op x0 y0|g|cx cy cz u|x0 y0 z0 t|v e t|] eqn:Hgn;
-          try discriminate Hor.
-        + rewrite (val_oracle O osem a id g) by assumption. reflexivity.
-        + set (r := {| ex := x; ey := y; ez := z; ev := any |}).
-          destruct (val_oracleT O osem a id cx cy cz u r Hwf Hid Hgn) as (Hx & Hy & Hz & Hu & ->).
-          assert (Gx : G cx) by (apply (HGkid id); [exact Hg | rewrite Hgn; simpl; auto]).
-          assert (Gy : G cy) by (apply (HGkid id); [exact Hg | rewrite Hgn; simpl; auto]).
-          assert (Gz : G cz) by (apply (HGkid id); [exact Hg | rewrite Hgn; simpl; auto]).
-          assert (Gu : G u) by (apply (HGkid id); [exact Hg | rewrite Hgn; simpl; auto 6]).
-          destruct fc as [|fc]; [discriminate Hc|]. cbn [coords_closed] in Hc. rewrite Hgn in Hc.
-          apply andb_true_iff in Hc. destruct Hc as [Hc Cu].
-          apply andb_true_iff in Hc. destruct Hc as [Hc Cz].
-          apply andb_true_iff in Hc. destruct Hc as [Hc Cy].
-          apply andb_true_iff in Hc. destruct Hc as [Hc Cx].
-          apply andb_true_iff in Hc. destruct Hc as [Hc Vz].
-          apply andb_true_iff in Hc. destruct Hc as [Vx Vy].
-          rewrite (IHE cx fc (vars0 O) x y z Gx ltac:(lia) Cx).
-          rewrite (IHE cy fc (vars0 O) x y z Gy ltac:(lia) Cy).
-          rewrite (IHE cz fc (vars0 O) x y z Gz ltac:(lia) Cz).
-          rewrite (IHO u fc _ _ _ any Gu ltac:(lia) Hund Cu).
-          unfold upd_xyz. cbn [ev].
-          rewrite (val_var_free O osem a Hwf fc cx (HGlt cx Gx) Vx _ r) by reflexivity.
-          rewrite (val_var_free O osem a Hwf fc cy (HGlt cy Gy) Vy _ r) by reflexivity.
-          rewrite (val_var_free O osem a Hwf fc cz (HGlt cz Gz) Vz _ r) by reflexivity.
-          reflexivity.
-    Qed.
-  End Good.
+  (* WHAT IS ASSUMED ABOUT Tree::optimized on one tree: the result is a live node of a
+     well-formed arena, denotes the same function, and reaches (through walk()'s links) only
+     plain nodes and oracle leaves.  For oracle-free source trees this is a theorem
+     ([opt_ok_src], over [R_ops]); with oracles only the last conjunct is not derivable from
+     the existing optimiser theorems ([opt_ok_of_pure]). *)
+  Definition opt_ok (a : arena) (root : nat) : Prop :=
+    let '(a1, r1) := optimized O a root in
+    arena_wf a1 /\ base_ok O a1 /\ r1 < length a1 /\
+    (forall r, val a1 r1 r = val a root r) /\
+    (forall m, DeckSemReach.reach a1 r1 m -> opure_at a1 m).
 
-  (* ArrayEvaluator(Tree root, vars).value({x,y,z}) on a tree with oracles *)
-  Theorem evaluator_correct (a : arena) root fuel fc vars x y z :
-    arena_wf a -> base_ok O a -> root < length a -> 2 * root + 2 <= fuel ->
-    coords_closed fc a root = true ->
-    (forall m, dreach a root m -> canon_at a m) ->
-    (forall m, dreach a root m -> underlying_at a m) ->
+  (* the whole tower below an evaluator / an oracle object, [n] levels deep:
+     - the tree handed to an evaluator optimises well ([opt_ok]) and every oracle node of
+       the resulting deck has a good oracle object;
+     - a user oracle is good; a transformed oracle is good when its three coordinate trees
+       have good evaluators and depend on the point only ([xyz_only]: they are evaluated
+       with the EMPTY variable map), and its underlying node is a good oracle. *)
+  Fixpoint tower_ok (n : nat) (a : arena) (root : nat) {struct n} : Prop :=
+    match n with
+    | 0 => False
+    | S k =>
+        opt_ok a root /\
+        (let '(a1, r1) := optimized O a root in
+         forall id, DeckSemReach.reach a1 r1 id -> is_oracle_node (getn a1 id) = true ->
+                    obj_ok k a1 id)
+    end
+  with obj_ok (n : nat) (a : arena) (id : nat) {struct n} : Prop :=
+    match n with
+    | 0 => False
+    | S k =>
+        match getn a id with
+        | NOracle _ => True
+        | NOracleT cx cy cz u =>
+            tower_ok k a cx /\ tower_ok k a cy /\ tower_ok k a cz /\
+            xyz_only a cx /\ xyz_only a cy /\ xyz_only a cz /\
+            is_oracle_node (getn a u) = true /\ obj_ok k a u
+        | _ => False
+        end
+    end.
+
+  Lemma tower_ok_S k (a : arena) root :
+    tower_ok (S k) a root =
+    (opt_ok a root /\
+     (let '(a1, r1) := optimized O a root in
+      forall id, DeckSemReach.reach a1 r1 id -> is_oracle_node (getn a1 id) = true ->
+                 obj_ok k a1 id)).
+  Proof. reflexivity. Qed.
+
+  Lemma obj_ok_S k (a : arena) id :
+    obj_ok (S k) a id =
+    match getn a id with
+    | NOracle _ => True
+    | NOracleT cx cy cz u =>
+        tower_ok k a cx /\ tower_ok k a cy /\ tower_ok k a cz /\
+        xyz_only a cx /\ xyz_only a cy /\ xyz_only a cz /\
+        is_oracle_node (getn a u) = true /\ obj_ok k a u
+    | _ => False
+    end.
+  Proof. reflexivity. Qed.
+
+  (* more levels never hurt *)
+  Lemma tower_mono : forall n,
+    (forall (a : arena) root, tower_ok n a root -> tower_ok (S n) a root) /\
+    (forall (a : arena) id, obj_ok n a id -> obj_ok (S n) a id).
+  Proof.
+    induction n as [|k [IHT IHO]]; split.
+    - intros a root [].
+    - intros a id [].
+    - intros a root H. rewrite tower_ok_S in H. rewrite tower_ok_S.
+      destruct H as [Hopt Hobj]. split; [exact Hopt|].
+      destruct (optimized O a root) as [a1 r1]. intros id Hr Ho. apply IHO. apply Hobj; assumption.
+    - intros a id H. rewrite obj_ok_S in H. rewrite obj_ok_S.
+      destruct (getn a id) as [c|op|op x0|op x0 y0|g|cx cy cz u|x0 y0 z0 t|v e t|]; try exact H.
+      destruct H as (Tx & Ty & Tz & Cx & Cy & Cz & Hu & Ou).
+      split; [apply IHT; exact Tx|]. split; [apply IHT; exact Ty|]. split; [apply IHT; exact Tz|].
+      split; [exact Cx|]. split; [exact Cy|]. split; [exact Cz|]. split; [exact Hu|].
+      apply IHO; exact Ou.
+  Qed.
+
+  Lemma tower_ok_le n m (a : arena) root : n <= m -> tower_ok n a root -> tower_ok m a root.
+  Proof. induction 1 as [|m' Hle IH]; [auto|]. intros Ht. apply (proj1 (tower_mono _)). auto. Qed.
+
+  Lemma obj_ok_le n m (a : arena) id : n <= m -> obj_ok n a id -> obj_ok m a id.
+  Proof. induction 1 as [|m' Hle IH]; [auto|]. intros Ht. apply (proj2 (tower_mono _)). auto. Qed.
+
+  Lemma tower_correct : forall n,
+    (forall (a : arena) root vars x y z, tower_ok n a root ->
+       evaluator n a root vars x y z = val a root {| ex := x; ey := y; ez := z; ev := vars |}) /\
+    (forall (a : arena) id x y z any, arena_wf a -> id < length a -> obj_ok n a id ->
+       oracle_obj n a id x y z = val a id {| ex := x; ey := y; ez := z; ev := any |}).
+  Proof.
+    induction n as [|k [IHE IHO]]; split.
+    - intros a root vars x y z [].
+    - intros a id x y z any _ _ [].
+    - (* an evaluator: optimise, then a deck whose ORACLE clauses call the oracle objects *)
+      intros a root vars x y z H. rewrite tower_ok_S in H. destruct H as [Hopt Hobj].
+      unfold opt_ok in Hopt. rewrite evaluator_S.
+      destruct (optimized O a root) as [a1 r1].
+      destruct Hopt as (Hwf & Hb & Hr1 & Hval & Hpure).
+      rewrite (deck_correct_oracle_reach O osem _ a1 r1 vars x y z Hwf Hb Hr1 Hpure).
+      + apply Hval.
+      + intros kk slot id Hk. cbv beta. rewrite Hk.
+        destruct (deck_oracles_spec a1 Hwf r1 Hr1 slot id (nth_error_In _ _ Hk))
+          as (Hr & _ & Hlt & Hor).
+        apply IHO; [exact Hwf | exact Hlt | apply Hobj; assumption].
+    - (* an oracle object *)
+      intros a id x y z any Hwf Hid H. rewrite obj_ok_S in H. rewrite oracle_obj_S.
+      destruct (getn a id) as [c|op|op x0|op x0 y0|g|cx cy cz u|x0 y0 z0 t|v e t|] eqn:Hgn;
+        try contradiction.
+      + rewrite (val_oracle O osem a id g) by assumption. reflexivity.
+      + destruct H as (Tx & Ty & Tz & Cx & Cy & Cz & Hu & Ou).
+        set (r := {| ex := x; ey := y; ez := z; ev := any |}).
+        destruct (val_oracleT O osem a id cx cy cz u r Hwf Hid Hgn) as (Hx & Hy & Hz & Hult & ->).
+        rewrite (IHE a cx (vars0 O) x y z Tx), (IHE a cy (vars0 O) x y z Ty),
+                (IHE a cz (vars0 O) x y z Tz).
+        rewrite (IHO a u _ _ _ any Hwf ltac:(lia) Ou).
+        unfold upd_xyz. cbn [ev].
+        rewrite (Cx _ r) by reflexivity. rewrite (Cy _ r) by reflexivity.
+        rewrite (Cz _ r) by reflexivity. reflexivity.
+  Qed.
+
+  (* ArrayEvaluator(Tree root, vars).value({x,y,z}) on a SOURCE tree (lazy remap / apply
+     nodes allowed wherever [opt_ok] holds) with oracles *)
+  Theorem evaluator_correct n fuel (a : arena) root vars x y z :
+    tower_ok n a root -> n <= fuel ->
     evaluator fuel a root vars x y z = val a root {| ex := x; ey := y; ez := z; ev := vars |}.
   Proof.
-    intros Hwf Hb Hroot HF Hc Hcan Hund.
-    refine (proj1 (eval_oracle_correct a Hwf Hb (dreach a root) _ _ Hcan Hund fuel)
-                  root fc vars x y z (dreach_root a root) HF Hc).
-    - intros m Hm. pose proof (dreach_le a root m Hwf Hroot Hm). lia.
-    - intros p c Hp Hk. apply (dreach_kid a root p c Hp Hk).
+    intros H Hle. apply (proj1 (tower_correct fuel)). apply (tower_ok_le n fuel a root Hle H).
   Qed.
 
-  (* getOracle() of an oracle node, then set + evalPoint *)
-  Theorem oracle_obj_correct (a : arena) id fuel fc any x y z :
-    arena_wf a -> base_ok O a -> id < length a -> 2 * id + 1 <= fuel ->
-    is_oracle_node (getn a id) = true ->
-    coords_closed fc a id = true ->
-    (forall m, dreach a id m -> canon_at a m) ->
-    (forall m, dreach a id m -> underlying_at a m) ->
+  (* getOracle() of an oracle node, then set + evalPoint: the denotation at ANY variable
+     assignment *)
+  Theorem oracle_obj_correct n fuel (a : arena) id any x y z :
+    arena_wf a -> id < length a -> obj_ok n a id -> n <= fuel ->
     oracle_obj fuel a id x y z = val a id {| ex := x; ey := y; ez := z; ev := any |}.
   Proof.
-    intros Hwf Hb Hid HF Hor Hc Hcan Hund.
-    refine (proj2 (eval_oracle_correct a Hwf Hb (dreach a id) _ _ Hcan Hund fuel)
-                  id fc x y z any (dreach_root a id) HF Hor Hc).
-    - intros m Hm. pose proof (dreach_le a id m Hwf Hid Hm). lia.
-    - intros p c Hp Hk. apply (dreach_kid a id p c Hp Hk).
+    intros Hwf Hid H Hle. apply (proj2 (tower_correct fuel)); auto.
+    apply (obj_ok_le n fuel a id Hle H).
   Qed.
 
-  (* the side conditions demanded of all nodes <= root (as in [deck_correct]); note that
-     [coords_closed] already implies [evaluable_at] on the reachable nodes *)
-  Definition underlying_ok (a : arena) (root : nat) : Prop :=
-    forall m cx cy cz u, m <= root -> getn a m = NOracleT cx cy cz u ->
-                         is_oracle_node (getn a u) = true.
-
-  Corollary evaluator_correct_le (a : arena) root fuel vars x y z :
-    arena_wf a -> base_ok O a -> root < length a -> 2 * root + 2 <= fuel ->
-    (forall m, m <= root -> evaluable_at a m) ->
-    (forall m, m <= root -> canon_at a m) ->
-    underlying_ok a root ->
-    coords_closed (S root) a root = true ->
-    evaluator fuel a root vars x y z = val a root {| ex := x; ey := y; ez := z; ev := vars |}.
+  (* no oracle below the optimised root: one level *)
+  Lemma tower_ok_pure (a : arena) root :
+    opt_ok a root ->
+    (let '(a1, r1) := optimized O a root in
+     forall m, DeckSemReach.reach a1 r1 m -> pure_at a1 m) ->
+    tower_ok 1 a root.
   Proof.
-    intros Hwf Hb Hroot HF _ Hcan Hund Hc.
-    apply (evaluator_correct a root fuel (S root)); auto.
-    - intros m Hm. apply Hcan. apply (dreach_le a root m Hwf Hroot Hm).
-    - intros m Hm. pose proof (dreach_le a root m Hwf Hroot Hm) as Hle.
-      unfold underlying_at. destruct (getn a m) eqn:Hg; auto. eapply Hund; eauto.
-  Qed.
-
-  Corollary oracle_obj_correct_le (a : arena) id fuel any x y z :
-    arena_wf a -> base_ok O a -> id < length a -> 2 * id + 1 <= fuel ->
-    is_oracle_node (getn a id) = true ->
-    (forall m, m <= id -> evaluable_at a m) ->
-    (forall m, m <= id -> canon_at a m) ->
-    underlying_ok a id ->
-    coords_closed (S id) a id = true ->
-    oracle_obj fuel a id x y z = val a id {| ex := x; ey := y; ez := z; ev := any |}.
-  Proof.
-    intros Hwf Hb Hid HF Hor _ Hcan Hund Hc.
-    apply (oracle_obj_correct a id fuel (S id)); auto.
-    - intros m Hm. apply Hcan. apply (dreach_le a id m Hwf Hid Hm).
-    - intros m Hm. pose proof (dreach_le a id m Hwf Hid Hm) as Hle.
-      unfold underlying_at. destruct (getn a m) eqn:Hg; auto. eapply Hund; eauto.
+    intros Hopt Hp. rewrite tower_ok_S. split; [exact Hopt|].
+    destruct (optimized O a root) as [a1 r1]. intros id Hr Ho. exfalso.
+    specialize (Hp id Hr). unfold pure_at in Hp.
+    destruct (getn a1 id); try discriminate Ho; contradiction.
   Qed.
 
   (* ---------------------------------------------------------------- *)
   (* c. the coordinate evaluators ignore the variable assignment        *)
-  (* oracle 0 remapped by  x -> x + v  (v a free variable):
-       5: v    6: x + v    7: oracle 0    8: oracle 0 at (x + v, y, z) *)
-  Definition bad_arena : arena :=
-    init_arena O ++ [NNullary VAR_FREE; NBinary OP_ADD idX 5; NOracle 0; NOracleT 6 idY idZ 7].
+  (* oracle.remap(min(x, w), y, z) as the client builds it (lazy remap):
+       5: v (a free variable)   6: min(x, node w)   7: oracle 0   8: remap of 7 by (6, y, z)
+     w = 5 (the variable): [bad_arena];  w = idY: [good_arena] *)
+  Definition ex_arena (w : nat) : arena :=
+    init_arena O ++ [NNullary VAR_FREE; NBinary OP_MIN idX w; NOracle 0; NRemap 6 idY idZ 7].
+
+  (* Tree::optimized: flatten pushes 9, the optimiser rebuilds the coordinate (10) and the
+     transformed oracle (11) *)
+  Definition ex_opt (w : nat) : arena :=
+    ex_arena w ++ [NOracleT 6 idY idZ 7; NBinary OP_MIN idX w; NOracleT 10 idY idZ 7].
+
+  Definition bad_arena : arena := ex_arena 5.
+  Definition bad_opt : arena := ex_opt 5.
+  Definition good_arena : arena := ex_arena idY.
+  Definition good_opt : arena := ex_opt idY.
+
+  Lemma bad_optimized : optimized O bad_arena 8 = (bad_opt, 11).
+  Proof. vm_compute. reflexivity. Qed.
 
   Lemma bad_evaluator vars x y z :
-    evaluator 18 bad_arena 8 vars x y z = osem 0 (o_add O x (o_zero O)) y z.
-  Proof. reflexivity. Qed.
+    evaluator 6 bad_arena 8 vars x y z = osem 0 (o_bin O OP_MIN x (o_zero O)) y z.
+  Proof. vm_compute. reflexivity. Qed.
+
+  Lemma bad_evaluator_3 vars x y z :
+    evaluator 3 bad_arena 8 vars x y z = osem 0 (o_bin O OP_MIN x (o_zero O)) y z.
+  Proof. vm_compute. reflexivity. Qed.
 
   Lemma bad_val vars x y z :
-    val bad_arena 8 {| ex := x; ey := y; ez := z; ev := vars |} = osem 0 (o_add O x (vars 5)) y z.
+    val bad_arena 8 {| ex := x; ey := y; ez := z; ev := vars |} =
+    osem 0 (o_bin O OP_MIN x (vars 5)) y z.
+  Proof. vm_compute. reflexivity. Qed.
+
+  Lemma bad_coord_val (r : env) : val bad_opt 10 r = o_bin O OP_MIN (ex r) (ev r 5).
   Proof. reflexivity. Qed.
 
-  Lemma bad_dreach m : dreach bad_arena 8 m -> In m [8; 6; 1; 2; 7; 0; 5].
+  (* reachable sets of concrete arenas *)
+  Lemma reach_closed (a : arena) r (L : list nat) :
+    In r L -> (forall p, In p L -> forall c, In c (kids (getn a p)) -> In c L) ->
+    forall m, DeckSemReach.reach a r m -> In m L.
   Proof.
-    clear osem. induction 1 as [|p c Hp IH Hc]; [simpl; auto|].
-    simpl in IH. destruct IH as [<-|[<-|[<-|[<-|[<-|[<-|[<-|[]]]]]]]]; simpl in Hc; simpl; tauto.
+    intros Hr Hcl m. induction 1 as [|p c Hp IH Hc]; [exact Hr|]. apply (Hcl p IH c Hc).
   Qed.
 
-  (* every hypothesis of [evaluator_correct] but [coords_closed] holds *)
-  Lemma bad_arena_side :
-    arena_wf bad_arena /\ base_ok O bad_arena /\ 8 < length bad_arena /\ 2 * 8 + 2 <= 18 /\
-    (forall m, dreach bad_arena 8 m -> evaluable_at bad_arena m) /\
-    (forall m, dreach bad_arena 8 m -> canon_at bad_arena m) /\
-    (forall m, dreach bad_arena 8 m -> underlying_at bad_arena m).
+  Lemma opt_ok_intro (a : arena) root a1 r1 :
+    optimized O a root = (a1, r1) ->
+    arena_wf a1 -> base_ok O a1 -> r1 < length a1 ->
+    (forall r, val a1 r1 r = val a root r) ->
+    (forall m, DeckSemReach.reach a1 r1 m -> opure_at a1 m) ->
+    opt_ok a root.
+  Proof. intros E. unfold opt_ok. rewrite E. auto. Qed.
+
+  Lemma tower_ok_S_eq k (a : arena) root a1 r1 :
+    optimized O a root = (a1, r1) ->
+    (tower_ok (S k) a root <->
+     opt_ok a root /\
+     forall id, DeckSemReach.reach a1 r1 id -> is_oracle_node (getn a1 id) = true -> obj_ok k a1 id).
+  Proof. intros E. rewrite tower_ok_S, E. reflexivity. Qed.
+
+  Ltac wf_tac := unfold arena_wf, ex_opt, ex_arena, init_arena; simpl;
+                 repeat split; try reflexivity; unfold idX, idY, idZ; lia.
+  Ltac in_cases H := simpl in H; repeat (destruct H as [<-|H]; [|]); try destruct H.
+
+  (* the evaluator of a leaf axis of the optimised arena *)
+  Lemma ex_axis_tower w ax : w = 1 \/ w = 5 -> ax = 1 \/ ax = 2 ->
+    tower_ok 1 (ex_opt w) ax /\ xyz_only (ex_opt w) ax.
   Proof.
-    clear osem. split; [|split; [|split; [|split; [|split; [|split]]]]].
-    - unfold arena_wf, bad_arena; simpl. repeat split; try reflexivity; unfold idX, idY, idZ; lia.
-    - reflexivity.
-    - simpl; lia.
-    - lia.
-    - intros m Hm. apply bad_dreach in Hm. simpl in Hm.
-      destruct Hm as [<-|[<-|[<-|[<-|[<-|[<-|[<-|[]]]]]]]]; exact I.
-    - intros m Hm. apply bad_dreach in Hm. simpl in Hm.
-      destruct Hm as [<-|[<-|[<-|[<-|[<-|[<-|[<-|[]]]]]]]]; unfold canon_at; simpl; auto.
-    - intros m Hm. apply bad_dreach in Hm. simpl in Hm.
-      destruct Hm as [<-|[<-|[<-|[<-|[<-|[<-|[<-|[]]]]]]]]; unfold underlying_at; simpl; auto.
+    intros Hw Hax. split.
+    - apply tower_ok_pure.
+      + apply (opt_ok_intro (ex_opt w) ax (ex_opt w) ax).
+        * destruct Hw as [->| ->], Hax as [->| ->]; vm_compute; reflexivity.
+        * destruct Hw as [->| ->]; wf_tac.
+        * reflexivity.
+        * destruct Hax as [->| ->]; simpl; lia.
+        * reflexivity.
+        * intros m Hm. apply (reach_closed (ex_opt w) ax [ax]) in Hm; [|left; reflexivity|].
+          -- in_cases Hm. destruct Hax as [->| ->]; reflexivity.
+          -- intros p Hp c Hc. in_cases Hp. destruct Hax as [->| ->]; destruct Hc.
+      + assert (E : optimized O (ex_opt w) ax = (ex_opt w, ax))
+          by (destruct Hw as [->| ->], Hax as [->| ->]; vm_compute; reflexivity).
+        rewrite E. intros m Hm.
+        apply (reach_closed (ex_opt w) ax [ax]) in Hm; [|left; reflexivity|].
+        * in_cases Hm. destruct Hax as [->| ->]; reflexivity.
+        * intros p Hp c Hc. in_cases Hp. destruct Hax as [->| ->]; destruct Hc.
+    - intros r r' Ex Ey Ez. destruct Hax as [->| ->].
+      + change (ey r = ey r'). exact Ey.
+      + change (ez r = ez r'). exact Ez.
   Qed.
 
-  Lemma bad_not_closed fc : coords_closed fc bad_arena 8 = false.
-  Proof. destruct fc as [|[|[|fc]]]; reflexivity. Qed.
-  (* ---------------------------------------------------------------- *)
-  (* fuel: [root < fuel] is not enough.  Five nested transformed oracles:
-       5: oracle 0    k+1: oracle 0 at (node k, y, z)   for k = 5..9 *)
-  Definition deep_arena : arena :=
-    init_arena O ++ [NOracle 0; NOracleT 5 idY idZ 5; NOracleT 6 idY idZ 5; NOracleT 7 idY idZ 5;
-                     NOracleT 8 idY idZ 5; NOracleT 9 idY idZ 5].
+  (* the evaluator of the rebuilt first coordinate min(x, w) *)
+  Lemma ex_coord_tower w : w = 1 \/ w = 5 -> tower_ok 1 (ex_opt w) 10.
+  Proof.
+    intros Hw.
+    assert (E : optimized O (ex_opt w) 10 = (ex_opt w ++ [NBinary OP_MIN idX w], 12))
+      by (destruct Hw as [->| ->]; vm_compute; reflexivity).
+    assert (Hreach : forall m, DeckSemReach.reach (ex_opt w ++ [NBinary OP_MIN idX w]) 12 m ->
+                               In m [12; 0; w]).
+    { apply reach_closed; [left; reflexivity|].
+      intros p Hp c Hc. destruct Hw as [->| ->]; in_cases Hp; in_cases Hc; simpl; tauto. }
+    assert (Hpure : forall m, DeckSemReach.reach (ex_opt w ++ [NBinary OP_MIN idX w]) 12 m ->
+                              pure_at (ex_opt w ++ [NBinary OP_MIN idX w]) m).
+    { intros m Hm. apply Hreach in Hm. destruct Hw as [->| ->]; in_cases Hm; reflexivity. }
+    apply tower_ok_pure.
+    - apply (opt_ok_intro _ _ _ _ E).
+      + destruct Hw as [->| ->]; wf_tac.
+      + reflexivity.
+      + simpl; lia.
+      + destruct Hw as [->| ->]; reflexivity.
+      + intros m Hm. apply pure_opure. apply Hpure; exact Hm.
+    - rewrite E. exact Hpure.
+  Qed.
 
-  Lemma deep_val vars x y z :
-    val deep_arena 10 {| ex := x; ey := y; ez := z; ev := vars |} =
-    osem 0 (osem 0 (osem 0 (osem 0 (osem 0 (osem 0 x y z) y z) y z) y z) y z) y z.
-  Proof. reflexivity. Qed.
+  (* the whole tower of oracle.remap(min(x, w), y, z) is good iff the rebuilt coordinate
+     tree depends on the point only *)
+  Theorem ex_tower w : w = 1 \/ w = 5 ->
+    (tower_ok 3 (ex_arena w) 8 <-> xyz_only (ex_opt w) 10).
+  Proof.
+    intros Hw.
+    assert (E : optimized O (ex_arena w) 8 = (ex_opt w, 11))
+      by (destruct Hw as [->| ->]; vm_compute; reflexivity).
+    assert (G11 : getn (ex_opt w) 11 = NOracleT 10 idY idZ 7) by reflexivity.
+    rewrite (tower_ok_S_eq 2 _ _ _ _ E). split.
+    - intros [_ Hobj].
+      specialize (Hobj 11 (DeckSemReach.reach_root _ _) ltac:(rewrite G11; reflexivity)).
+      rewrite obj_ok_S, G11 in Hobj. apply Hobj.
+    - intros Hc. split.
+      + apply (opt_ok_intro _ _ _ _ E).
+        * destruct Hw as [->| ->]; wf_tac.
+        * reflexivity.
+        * simpl; lia.
+        * destruct Hw as [->| ->]; reflexivity.
+        * intros m Hm. apply (reach_closed (ex_opt w) 11 [11]) in Hm; [|left; reflexivity|].
+          -- in_cases Hm. unfold opure_at. rewrite G11. exact I.
+          -- intros p Hp c Hk. in_cases Hp. rewrite G11 in Hk. destruct Hk.
+      + intros id Hr Ho. apply (reach_closed (ex_opt w) 11 [11]) in Hr; [|left; reflexivity|].
+        2:{ intros p Hp c Hk. in_cases Hp. rewrite G11 in Hk. destruct Hk. }
+        in_cases Hr. rewrite obj_ok_S, G11.
+        destruct (ex_axis_tower w 1 Hw (or_introl eq_refl)) as [T1 C1].
+        destruct (ex_axis_tower w 2 Hw (or_intror eq_refl)) as [T2 C2].
+        split; [apply ex_coord_tower; exact Hw|]. split; [exact T1|]. split; [exact T2|].
+        split; [exact Hc|]. split; [exact C1|]. split; [exact C2|].
+        split; reflexivity.
+  Qed.
 
-  Lemma deep_evaluator_12 vars x y z :
-    evaluator 12 deep_arena 10 vars x y z =
-    osem 0 (osem 0 (osem 0 (osem 0 (osem 0 (osem 0 x y z) y z) y z) y z) y z) y z.
-  Proof. reflexivity. Qed.
+  (* non-vacuity: the lazy remap of an oracle by (min(x, y), y, z) satisfies [tower_ok], so
+     [evaluator_correct] covers it, for every number type *)
+  Lemma good_coord_closed : xyz_only good_opt 10.
+  Proof.
+    intros r r' Ex Ey Ez.
+    change (o_bin O OP_MIN (ex r) (ey r) = o_bin O OP_MIN (ex r') (ey r')). congruence.
+  Qed.
 
-  (* with fuel 11 > root = 10 the innermost evaluator has run out of fuel *)
-  Lemma deep_evaluator_11 vars x y z :
-    evaluator 11 deep_arena 10 vars x y z =
-    osem 0 (osem 0 (osem 0 (osem 0 (osem 0 (o_zero O) y z) y z) y z) y z) y z.
-  Proof. reflexivity. Qed.
+  Theorem good_tower : tower_ok 3 good_arena 8.
+  Proof. apply (ex_tower 1 (or_introl eq_refl)). exact good_coord_closed. Qed.
 
-  Lemma deep_closed : coords_closed 11 deep_arena 10 = true.
-  Proof. reflexivity. Qed.
+  Corollary good_evaluator fuel vars x y z : 3 <= fuel ->
+    evaluator fuel good_arena 8 vars x y z = osem 0 (o_bin O OP_MIN x y) y z.
+  Proof.
+    intros Hf. rewrite (evaluator_correct 3 fuel good_arena 8 vars x y z good_tower Hf).
+    reflexivity.
+  Qed.
+
+  (* for the variable: every part of [tower_ok] holds except [xyz_only] of the coordinate *)
+  Corollary bad_tower : tower_ok 3 bad_arena 8 <-> xyz_only bad_opt 10.
+  Proof. apply (ex_tower 5 (or_intror eq_refl)). Qed.
 End OracleCorrect.
 
 (* ================================================================== *)
@@ -601,28 +670,34 @@ Local Open Scope R_scope.
 
 (* the defect of transformed_oracle.cpp: xEvaluator(X_) is built with an empty variable
    map, so a remap whose coordinate trees mention a free variable is evaluated with that
-   variable at 0 whatever the caller assigned *)
+   variable at 0 whatever the caller assigned.  [tower_ok] fails exactly at [xyz_only] of the
+   first coordinate tree of the transformed oracle that Tree::optimized produces. *)
 Theorem oracle_vars_refuted :
   let osem := fun (_ : nat) (x _ _ : R) => x in     (* the user oracle returns its x *)
-  let a := bad_arena RD in                           (* oracle 0 at (x + v, y, z) *)
+  let a := bad_arena RD in                           (* oracle 0 remapped by (min(x,v), y, z) *)
   let vars := fun _ : nat => 3 in                    (* v := 3 *)
-  (arena_wf a /\ base_ok RD a /\ (8 < length a)%nat /\ (2 * 8 + 2 <= 18)%nat /\
-   (forall m, dreach a 8 m -> evaluable_at a m) /\
-   (forall m, dreach a 8 m -> canon_at a m) /\
-   (forall m, dreach a 8 m -> underlying_at a m)) /\
-  (forall fc, coords_closed fc a 8 = false) /\
-  evaluator RD osem 18 a 8 vars 0 0 0 = 0 /\
-  val RD osem a 8 {| ex := 0; ey := 0; ez := 0; ev := vars |} = 3 /\
-  evaluator RD osem 18 a 8 vars 0 0 0 <> val RD osem a 8 {| ex := 0; ey := 0; ez := 0; ev := vars |}.
+  optimized RD a 8 = (bad_opt RD, 11%nat) /\
+  getn (bad_opt RD) 11 = NOracleT 10 idY idZ 7 /\
+  ~ xyz_only RD osem (bad_opt RD) 10 /\
+  (tower_ok RD osem 3 a 8 <-> xyz_only RD osem (bad_opt RD) 10) /\
+  evaluator RD osem 6 a 8 vars 5 0 0 = 0 /\
+  val RD osem a 8 {| ex := 5; ey := 0; ez := 0; ev := vars |} = 3 /\
+  evaluator RD osem 6 a 8 vars 5 0 0 <> val RD osem a 8 {| ex := 5; ey := 0; ez := 0; ev := vars |}.
 Proof.
   cbv zeta.
-  assert (E : evaluator RD (fun (_ : nat) (x _ _ : R) => x) 18 (bad_arena RD) 8 (fun _ => 3) 0 0 0 = 0).
-  { rewrite bad_evaluator. unfold o_add. cbn [o_bin o_zero RD RD_bin]. lra. }
+  assert (M0 : Rmin 5 0 = 0) by (unfold Rmin; destruct (Rle_dec 5 0); lra).
+  assert (M3 : Rmin 5 3 = 3) by (unfold Rmin; destruct (Rle_dec 5 3); lra).
+  assert (E : evaluator RD (fun (_ : nat) (x _ _ : R) => x) 6 (bad_arena RD) 8 (fun _ => 3) 5 0 0 = 0).
+  { rewrite bad_evaluator. cbn [o_bin o_zero RD RD_bin]. exact M0. }
   assert (V : val RD (fun (_ : nat) (x _ _ : R) => x) (bad_arena RD) 8
-                  {| ex := 0; ey := 0; ez := 0; ev := fun _ => 3 |} = 3).
-  { rewrite bad_val. unfold o_add. cbn [o_bin RD RD_bin]. lra. }
-  split; [apply bad_arena_side|]. split; [apply bad_not_closed|].
-  split; [exact E|]. split; [exact V|]. rewrite E, V. lra.
+                  {| ex := 5; ey := 0; ez := 0; ev := fun _ => 3 |} = 3).
+  { rewrite bad_val. cbn [o_bin RD RD_bin]. exact M3. }
+  split; [apply bad_optimized|]. split; [reflexivity|]. split.
+  - intros H.
+    specialize (H {| ex := 5; ey := 0; ez := 0; ev := fun _ => 3 |}
+                  {| ex := 5; ey := 0; ez := 0; ev := fun _ => 0 |} eq_refl eq_refl eq_refl).
+    rewrite !bad_coord_val in H. cbn [o_bin RD RD_bin ex ev] in H. lra.
+  - split; [apply bad_tower|]. split; [exact E|]. split; [exact V|]. rewrite E, V. lra.
 Qed.
 
 (* ---------------------------------------------------------------- *)
@@ -688,15 +763,99 @@ Proof.
       assumption.
 Qed.
 
-(* [root < fuel] does not suffice for [evaluator_correct]: oracle = x + 1, nested five times *)
-Theorem fuel_root_lt_insufficient :
-  let osem := fun (_ : nat) (x _ _ : R) => x + 1 in
-  (10 < 11)%nat /\ coords_closed 11 (deep_arena RD) 10 = true /\
-  evaluator RD osem 11 (deep_arena RD) 10 (fun _ => 0) 0 0 0 = 5 /\
-  evaluator RD osem 12 (deep_arena RD) 10 (fun _ => 0) 0 0 0 = 6 /\
-  val RD osem (deep_arena RD) 10 {| ex := 0; ey := 0; ez := 0; ev := fun _ => 0 |} = 6.
-Proof.
-  cbv zeta. split; [lia|]. split; [apply deep_closed|].
-  rewrite deep_evaluator_11, deep_evaluator_12, deep_val. cbn [o_zero RD].
-  repeat split; lra.
-Qed.
+(* ================================================================== *)
+(* b (continued): what the existing optimiser theorems give for [opt_ok], over the real
+   instance [R_ops uf bf] for which Tree/OptimizeSem.v is proved                          *)
+From LF Require Base.RInst Tree.FlattenSem Tree.OptimizeSem Tree.OptimizePure.
+Local Open Scope nat_scope.
+
+Section OptOkR.
+  Variable uf : opcode -> R -> R.
+  Variable bf : opcode -> R -> R -> R.
+  Hypothesis pow_1 : forall x, bf OP_POW x 1%R = x.
+  Hypothesis root_1 : forall x, bf OP_NTH_ROOT x 1%R = x.
+  Variable osem : nat -> R -> R -> R -> R.
+  Notation O := (RInst.R_ops uf bf).
+
+  Lemma reach_conv (a : arena R) root m :
+    DeckSemReach.reach a root m -> OptimizePure.reach a root m.
+  Proof. induction 1; [constructor | econstructor; eauto]. Qed.
+
+  (* oracle-free source trees (lazy remap / apply allowed): [opt_ok] is a theorem *)
+  Theorem opt_ok_src (a : arena R) i :
+    arena_wf a -> base_ok O a -> i < length a ->
+    OptimizePure.src_ok a i -> FlattenSem.noT a i ->
+    opt_ok O osem a i /\
+    (let '(a1, r1) := optimized O a i in forall m, DeckSemReach.reach a1 r1 m -> pure_at a1 m).
+  Proof.
+    intros Hwf Hb Hi Hs HnoT.
+    pose proof (OptimizePure.optimized_reach_pure_full O a i Hwf Hb Hi Hs) as Hp.
+    pose proof (OptimizeSem.optimized_sem_noT uf bf pow_1 root_1 osem a i Hwf Hb Hi HnoT) as Hv.
+    unfold opt_ok. destruct (optimized O a i) as [a' j].
+    destruct Hp as (He & Hwf' & Hb' & Hj & Hpure). destruct Hv as (_ & _ & _ & Hval).
+    assert (Hpure' : forall m, DeckSemReach.reach a' j m -> pure_at a' m)
+      by (intros m Hm; apply Hpure; apply reach_conv; exact Hm).
+    split; [|exact Hpure'].
+    repeat split; auto. intros m Hm. apply pure_opure. apply Hpure'; exact Hm.
+  Qed.
+
+  Corollary tower_ok_src (a : arena R) i :
+    arena_wf a -> base_ok O a -> i < length a ->
+    OptimizePure.src_ok a i -> FlattenSem.noT a i -> tower_ok O osem 1 a i.
+  Proof.
+    intros Hwf Hb Hi Hs HnoT. destruct (opt_ok_src a i Hwf Hb Hi Hs HnoT) as [H1 H2].
+    apply tower_ok_pure; assumption.
+  Qed.
+
+  (* sanity: on oracle-free trees the recursive evaluator is the pipeline of C01 *)
+  Corollary evaluator_oracle_free (a : arena R) i fuel vars x y z :
+    arena_wf a -> base_ok O a -> i < length a ->
+    OptimizePure.src_ok a i -> FlattenSem.noT a i -> 1 <= fuel ->
+    evaluator O osem fuel a i vars x y z = val O osem a i {| ex := x; ey := y; ez := z; ev := vars |}.
+  Proof.
+    intros Hwf Hb Hi Hs HnoT Hf.
+    apply (evaluator_correct O osem 1 fuel a i vars x y z); [|exact Hf].
+    apply tower_ok_src; assumption.
+  Qed.
+
+  (* a root without lazy nodes: flatten is the identity and the optimiser theorem needs no
+     shape restriction, so the value is preserved whatever oracles the arena holds *)
+  Lemma optimized_sem_noremap (a : arena R) i :
+    arena_wf a -> base_ok O a -> i < length a -> f_remap (flags_of a i) = false ->
+    let '(a', j) := optimized O a i in
+    extends a a' /\ arena_wf a' /\ j < length a' /\
+    forall r, val O osem a' j r = val O osem a i r.
+  Proof.
+    intros Hwf Hb Hi Hfl. unfold optimized, optimized_helper, flatten. rewrite Hfl.
+    assert (Hst : OptimizeSem.st_ok uf bf osem {| st_arena := a; st_canon := [] |}).
+    { apply OptimizeSem.st_ok_init; [exact Hwf | exact Hb | apply Forall_nil]. }
+    pose proof (OptimizeSem.opt_tree_sem uf bf pow_1 root_1 osem (opt_fuel i)
+                  {| st_arena := a; st_canon := [] |} i Hst Hi I
+                  ltac:(unfold OptimizeSem.fuel_enough, opt_fuel; lia)) as H.
+    destruct (opt_tree O (opt_fuel i) {| st_arena := a; st_canon := [] |} i) as [st' j].
+    cbn [st_arena] in H. destruct H as (Hst' & He & Hj & Hv).
+    split; [exact He|]. split; [apply Hst'|]. split; [exact Hj | exact Hv].
+  Qed.
+
+  (* with oracles: everything in [opt_ok] but the purity of the output follows from
+     OptimizeSem.v, for roots without already-transformed oracles below ([noT], the
+     hypothesis of [flatten_sem]) or without lazy nodes *)
+  Theorem opt_ok_of_pure (a : arena R) i :
+    arena_wf a -> base_ok O a -> i < length a ->
+    (FlattenSem.noT a i \/ f_remap (flags_of a i) = false) ->
+    (let '(a1, r1) := optimized O a i in forall m, DeckSemReach.reach a1 r1 m -> opure_at a1 m) ->
+    opt_ok O osem a i.
+  Proof.
+    intros Hwf Hb Hi Hcase Hp.
+    assert (Hv : let '(a', j) := optimized O a i in
+                 extends a a' /\ arena_wf a' /\ j < length a' /\
+                 forall r, val O osem a' j r = val O osem a i r).
+    { destruct Hcase as [HnoT|Hfl].
+      - apply (OptimizeSem.optimized_sem_noT uf bf pow_1 root_1 osem a i Hwf Hb Hi HnoT).
+      - apply optimized_sem_noremap; assumption. }
+    unfold opt_ok. destruct (optimized O a i) as [a' j].
+    destruct Hv as (He & Hwf' & Hj & Hval).
+    split; [exact Hwf'|]. split; [exact (base_ok_extends O a a' Hb He)|].
+    split; [exact Hj|]. split; [exact Hval | exact Hp].
+  Qed.
+End OptOkR.
